@@ -67,7 +67,7 @@ Lemma wire_is_name : forall ls, Forall label_ok ls -> forall pre post bar low ho
   name_at (pre ++ wire_of_labels ls ++ post) (length pre) bar low hops budget ls (length pre + length (wire_of_labels ls)).
 Proof.
   induction 1 as [|l ls Hl Hls IH]; intros pre post bar low hops budget Hb Hbar.
-  - cbn [wire_of_labels flat_map app length] in *. apply NRoot; [lia| |lia].
+  - cbn [wire_of_labels labels_flat flat_map app length] in *. apply NRoot; [lia| |lia].
     rewrite nth_error_app2 by lia. rewrite Nat.sub_diag. reflexivity.
   - destruct Hl as (Hne & Hlen & Hok). rewrite wire_of_labels_cons in *. cbn [length] in *. rewrite app_length in *.
     assert (Hnth : nth_error (pre ++ (N.of_nat (length l) :: l ++ wire_of_labels ls) ++ post) (length pre) = Some (N.of_nat (length l))).
@@ -110,7 +110,7 @@ Qed.
 
 Lemma bytes_ok_wire ls : Forall label_ok ls -> Forall (fun l => bytes_ok l) ls -> bytes_ok (wire_of_labels ls).
 Proof.
-  intros H Hb. unfold wire_of_labels, bytes_ok. apply Forall_app. split; [|repeat constructor].
+  intros H Hb. unfold wire_of_labels, labels_flat, bytes_ok. apply Forall_app. split; [|repeat constructor].
   induction H as [|l ls Hl Hls IH]; [constructor|]. inversion Hb; subst. cbn [flat_map].
   apply Forall_app. split; [|apply IH; assumption]. constructor; [|assumption].
   destruct Hl as (_ & Hlen & _). lia.
@@ -130,8 +130,6 @@ Proof.
 Qed.
 
 (** ** The getters *)
-Definition labels_flat (ls : list bytes) : bytes := flat_map (fun l => N.of_nat (length l) :: l) ls.
-
 Record question_of (p : bytes) (ls : list bytes) (t c : N) : Prop := {
   qo_name : exists qe, cname_l p 12 ls qe /\ u16_at p qe t /\ u16_at p (qe + 2) c /\ qe + 4 <= length p
 }.
@@ -200,8 +198,8 @@ Section Getters.
 
   Lemma wire_without_root : firstn (length wire - 1) wire = labels_flat ls.
   Proof.
-    unfold wire, wire_of_labels, labels_flat. rewrite app_length. cbn [length].
-    replace (length (flat_map (fun l => N.of_nat (length l) :: l) ls) + 1 - 1) with (length (flat_map (fun l => N.of_nat (length l) :: l) ls) + 0) by lia.
+    unfold wire, wire_of_labels. rewrite app_length. cbn [length].
+    replace (length (labels_flat ls) + 1 - 1) with (length (labels_flat ls) + 0) by lia.
     rewrite firstn_app_2. cbn [firstn]. apply app_nil_r.
   Qed.
 
